@@ -73,7 +73,7 @@ Example C27_example_high_level :
   run_case [HNew 1 (0, 7%Z) []; HNew 2 (2, 0%Z) [1]; HNew 3 (2, 0%Z) [1]; HNew 4 (3, 5%Z) [2];
             HDrop 2; HDrop 3; HNew 5 (2, 0%Z) [1]; HDrop 4; HDrop 5; HNew 6 (2, 0%Z) [1];
             HNew 7 (5, 1%Z) []; HNew 8 (2, 0%Z) [7]; HComplete 7 [8]; HDrop 7; HDrop 8; HCollect;
-            HNew 9 (0, 7%Z) []]%N
+            HNew 9 (0, 7%Z) []; HDropRebuild 6 10; HNew 11 (2, 0%Z) [1]]%N
   = ([HFresh; HFresh; HSame 2; HFresh; HOk; HOk; HFresh; HOk; HOk; HFresh;
-      HFresh; HFresh; HOk; HOk; HOk; HOk; HSame 1]%N, 2%N).
+      HFresh; HFresh; HOk; HOk; HOk; HOk; HSame 1; HFresh; HSame 10]%N, 2%N).
 Proof. vm_compute. reflexivity. Qed.
